@@ -62,7 +62,8 @@ func defaultReturnHandler() ReturnHandler {
 			return
 		}
 
-		if respVal.IsZero() {
+		// An empty byte slice is as good as a nil one, and the same as an empty string.
+		if respVal.IsZero() || (isByteSlice(respVal) && respVal.Len() == 0) {
 			return
 		}
 
